@@ -211,6 +211,14 @@ func main() {
 				rw.fieldProbes = true
 				rw.params, rw.stores = pkgParams(p)
 			}
+			if rw.sched && p.PkgPath == modPath && rootLambdaFiles[filepath.Base(rel)] {
+				// the lambda of an :around method / whopper is shared by every
+				// effective method it is part of (method.go "Wrap closure
+				// write", one of the property's known unsynchronised globals)
+				rw.fieldProbes = true
+				rw.rootLambda = true
+				rw.params, rw.stores = pkgParams(p)
+			}
 			if !rw.sched && !rw.os {
 				if src, ok := replaced[name]; ok {
 					ov.Replace[name] = src
@@ -289,6 +297,7 @@ type rewriter struct {
 	quietLoop   map[ast.Node]bool   // blocks and case clauses inside loops of the "noloops" files
 	funcOf      map[ast.Node]string // enclosing function of blocks and case clauses
 	fieldProbes bool                // rule R10 applies to this package
+	rootLambda  bool                // rule R10 in package slip: fields of Lambda, reached through any variable or type assertion
 	params      map[*types.Var]bool // parameters and receivers of the file's functions (rule R10)
 	stores      map[string]bool     // rule R10: fields stored to somewhere in the package
 }
@@ -1085,6 +1094,10 @@ type pkgFieldInfo struct {
 
 var pkgFieldCache = map[*packages.Package]*pkgFieldInfo{}
 
+// rootLambdaFiles are the files of package slip in which rule R10 probes the
+// fields of Lambda objects.
+var rootLambdaFiles = map[string]bool{"method.go": true, "whoploc.go": true, "lambda.go": true}
+
 // pkgParams returns the parameters and receivers of every function of the
 // package, and the (initially unset) store table shared by its files.
 func pkgParams(p *packages.Package) (map[*types.Var]bool, map[string]bool) {
@@ -1118,7 +1131,7 @@ func pkgParams(p *packages.Package) (map[*types.Var]bool, map[string]bool) {
 	}
 	pkgFieldCache[p] = c
 	// the store table needs a rewriter's helpers; it is filled on first use
-	rw := &rewriter{pkg: p, fset: p.Fset, info: p.TypesInfo, params: c.params, stats: map[string]int{}}
+	rw := &rewriter{pkg: p, fset: p.Fset, info: p.TypesInfo, params: c.params, stats: map[string]int{}, rootLambda: p.PkgPath == modPath}
 	c.stores = rw.fieldStores()
 	return c.params, c.stores
 }
@@ -1141,6 +1154,9 @@ func (rw *rewriter) codeObjectType(t types.Type) (*types.Named, bool) {
 		return nil, false
 	}
 	if n.Obj().Pkg() != nil && strings.HasSuffix(n.Obj().Pkg().Path(), "/pkg/generic") {
+		return n, true
+	}
+	if rw.rootLambda && n.Obj().Name() == "Lambda" && n.Obj().Pkg() != nil && n.Obj().Pkg().Path() == modPath {
 		return n, true
 	}
 	for i := 0; i < st.NumFields(); i++ {
@@ -1172,15 +1188,31 @@ func (rw *rewriter) fieldOf(e ast.Expr) (*types.Named, *ast.SelectorExpr, bool) 
 	if !ok {
 		return nil, nil, false
 	}
-	id, ok := ast.Unparen(sel.X).(*ast.Ident)
-	if !ok || !rw.paramOrReceiver(id) {
+	var base ast.Expr
+	if id, ok := ast.Unparen(sel.X).(*ast.Ident); ok && rw.paramOrReceiver(id) {
+		base = id
+	} else if rw.rootLambda {
+		// package slip: a Lambda is never made in these files' functions, so
+		// whatever variable or type assertion holds one came from outside
+		switch tx := ast.Unparen(sel.X).(type) {
+		case *ast.Ident:
+			if v, isVar := rw.info.Uses[tx].(*types.Var); isVar && !v.IsField() {
+				base = tx
+			}
+		case *ast.TypeAssertExpr:
+			if !rw.hasRealCall(tx.X) {
+				base = tx
+			}
+		}
+	}
+	if base == nil {
 		return nil, nil, false
 	}
 	sl := rw.info.Selections[sel]
 	if sl == nil || sl.Kind() != types.FieldVal || len(sl.Index()) != 1 {
 		return nil, nil, false
 	}
-	n, ok := rw.codeObjectType(rw.info.TypeOf(id))
+	n, ok := rw.codeObjectType(rw.info.TypeOf(base))
 	if !ok {
 		return nil, nil, false
 	}
